@@ -12,6 +12,7 @@ From Coq Require Import ZArith Bool List Lia.
 From GoCoap Require Import Base.Bytes Block.Model Blockwise.Config Blockwise.Model Blockwise.Spec Blockwise.Proofs Blockwise.Run
   Blockwise.ProofsExchange Blockwise.ProofsProgressDown.
 From GoCoap Require Blockwise.ProofsProgressUp Blockwise.ProofsProgressBoth.
+From GoCoap Require Import Blockwise.Timed Blockwise.ProofsTimed.
 Import ListNotations.
 Open Scope Z_scope.
 
@@ -127,44 +128,42 @@ Print Assumptions C04_progress_partial.
 (* Timeout i, Expire side.                                                      *)
 
 (* (a) Safety.  Every message handed to B's application has the token, code and
-   options of an exchange A's application started and carries exactly its body
-   (or is the body-less request that restarts a block-wise response to a POST/PUT:
-   the finding, see C04_exchange_safety_unrestricted_refuted); every message handed
-   to A's application is body-less (4.08 / 2.31) or has the code, options and ETag
-   of one version v <= number of changes of the resource of its exchange and exactly
-   that version's body.  Never a partial, extended or mixed body. *)
+   options of an exchange A's application started and carries exactly its body (or is
+   a body-less 4.08); every message handed to A's application is body-less (4.08 /
+   2.31) or has the code, options and ETag of one version v <= number of changes of
+   the resource of its exchange and exactly that version's body.  Never a partial,
+   extended or mixed body.  REPAIRED finding 3 (notes/C04.md): the statement used to
+   carry the exception "or is the body-less request that restarts a block-wise response
+   to a POST/PUT" and was refuted without it; since the client refuses to fetch the
+   response of a request other than GET/DELETE again from block 0, it holds without
+   exception and without a hypothesis on the size of the responses of uploads. *)
 Theorem C04_exchange_safety : forall c, cfg_wf c -> forall es, Forall (bump_ok c) es ->
   Forall (mob_ok c (bumps es)) (run c (init c) es).
 Proof. exact exchange_safety. Qed.
 Print Assumptions C04_exchange_safety.
 
 (* ... the same in the terms of the specification: class 0 of Spec.delivery_class for
-   every delivery of the model's trace, except that restart request *)
+   EVERY delivery of the model's trace of every script *)
 Theorem C04_exchange_safety_spec : forall c, cfg_wf c -> forall es, Forall (bump_ok c) es ->
-  Forall (fun o => Forall (fun d => delivery_class c es (o_side o) d = 0%N \/ (o_side o = 1 /\ restart_pm d)) (o_deliv o))
-         (model_obs c es).
+  Forall (fun o => Forall (fun d => delivery_class c es (o_side o) d = 0%N) (o_deliv o)) (model_obs c es).
 Proof. exact exchange_safety_spec. Qed.
 Print Assumptions C04_exchange_safety_spec.
 
-(* ... and without exception when no response to a POST/PUT is block-wise (every
-   version of the resource behind an upload exchange is shorter than 16 bytes) *)
-Theorem C04_exchange_safety_exact : forall c, cfg_wf c -> forall es, Forall (bump_ok c) es ->
-  small_upload_responses c es ->
-  Forall (fun o => Forall (fun d => delivery_class c es (o_side o) d = 0%N) (o_deliv o)) (model_obs c es).
-Proof. exact exchange_safety_spec_exact. Qed.
-Print Assumptions C04_exchange_safety_exact.
-
-(* The full-strength statement (no hypothesis on the responses of uploads) is FALSE of
-   the faithful model and of the code: two witnesses (a well-formed configuration and a
-   script each) on which the specification reports class 1, body-differs-from-supplied.
-   Replayed on the Go code (harness descriptor and a Go test, see notes/C04.md). *)
-Theorem C04_exchange_safety_unrestricted_refuted :
+(* The two histories on which the unrepaired code (and its faithful model) violated the
+   property (c04_class = 1: a body-less POST handed to B's application; they are canonical
+   cases of the correspondence run, see notes/C04.md): on the repaired model the client
+   refuses the restart at that event (error callback, 4.08, nothing handed over, no
+   reassembly entry left), B's application is only ever handed the 5-byte body A's
+   application supplied, and the whole property holds. *)
+Theorem C04_restart_refused_on_witnesses :
   (cfg_wf refute_cfg1 /\ Forall (bump_ok refute_cfg1) refute_es1 /\
-   c04_class refute_cfg1 refute_es1 (model_obs refute_cfg1 refute_es1) = 1%N) /\
+   c04_class refute_cfg1 refute_es1 (model_obs refute_cfg1 refute_es1) = 0%N /\
+   refused_at (model_obs refute_cfg1 refute_es1) 8 /\ no_empty_request (model_obs refute_cfg1 refute_es1)) /\
   (cfg_wf refute_cfg2 /\ Forall (bump_ok refute_cfg2) refute_es2 /\
-   c04_class refute_cfg2 refute_es2 (model_obs refute_cfg2 refute_es2) = 1%N).
-Proof. exact exchange_safety_unrestricted_refuted. Qed.
-Print Assumptions C04_exchange_safety_unrestricted_refuted.
+   c04_class refute_cfg2 refute_es2 (model_obs refute_cfg2 refute_es2) = 0%N /\
+   refused_at (model_obs refute_cfg2 refute_es2) 7 /\ no_empty_request (model_obs refute_cfg2 refute_es2)).
+Proof. exact restart_refused_on_witnesses. Qed.
+Print Assumptions C04_restart_refused_on_witnesses.
 
 (* (b) Exactly once.  At either application and for every token, the number of bodies
    handed over never exceeds the number of arrivals of a first message of a transfer
@@ -193,7 +192,7 @@ Print Assumptions C04_once_potential.
    preserved, known token, a Do that returns ok got its response, no panic / hang mark)
    on the model's trace of EVERY script. *)
 Theorem C04_exchange_ok : forall c, cfg_wf c -> forall es, Forall (bump_ok c) es ->
-  small_upload_responses c es -> c04_ok c es (model_obs c es) = true.
+  c04_ok c es (model_obs c es) = true.
 Proof. exact exchange_c04_ok. Qed.
 Print Assumptions C04_exchange_ok.
 
@@ -469,7 +468,7 @@ Definition ex2_es : list ev :=
    Deliver 0; Deliver 0; Deliver 0; Deliver 0; Deliver 0; Deliver 0; Deliver 0; Deliver 0; Deliver 0; Deliver 0; Replay 9; Deliver 0;
    Deliver 0; Timeout 1; Expire false; Expire true]%nat.
 Example C04_exchange_nonvacuous :
-  cfg_wf ex2_cfg /\ Forall (bump_ok ex2_cfg) ex2_es /\ small_upload_responses ex2_cfg ex2_es /\
+  cfg_wf ex2_cfg /\ Forall (bump_ok ex2_cfg) ex2_es /\
   c04_ok ex2_cfg ex2_es (model_obs ex2_cfg ex2_es) = true /\
   (* the bodies handed over: (side, [(token, length)]) *)
   map (fun o => (o_side o, map (fun d => (ptok d, plen d)) (o_deliv o)))
@@ -484,10 +483,132 @@ Proof.
     - intros r [<-|[<-|[]]]; cbn; lia. }
   assert (Hb : Forall (bump_ok ex2_cfg) ex2_es).
   { repeat (constructor; try exact I). cbn. intros r E. injection E as <-. reflexivity. }
-  assert (Hs : small_upload_responses ex2_cfg ex2_es).
-  { intros x r v [<-|[<-|[]]] Hup Hr Hv; [|discriminate Hup].
-    cbn in Hr. injection Hr as <-. cbn [xpath] in Hv. replace (bumps ex2_es 0) with 0 in Hv by (vm_compute; reflexivity).
-    assert (v = 0) by lia. subst v. vm_compute. reflexivity. }
-  split; [exact Hwf|]. split; [exact Hb|]. split; [exact Hs|]. split; [apply C04_exchange_ok; assumption|].
+  split; [exact Hwf|]. split; [exact Hb|]. split; [apply C04_exchange_ok; assumption|].
   vm_compute. reflexivity.
 Qed.
+
+(* ------------------------------------------------------------------------ *)
+(* Virtual time: the two caches with validity deadlines (Blockwise/Timed.v).    *)
+(* Every element of sendingMessagesCache / receivingMessagesCache carries its   *)
+(* ValidUntil (now + the transfer timeout when it is stored); Cache.Load hides   *)
+(* an element whose deadline has passed, LoadOrStore replaces it, LoadWithFunc  *)
+(* (getSentRequest) does not look at deadlines, CheckExpirations removes it and  *)
+(* calls onExpire.  The script gains [Age d] (d units of time pass, nothing is   *)
+(* swept) and [Sweep side] (CheckExpirations now).  The correspondence run       *)
+(* compares the implementation with THIS model (Run.model_obs_t); the harness    *)
+(* ages the real caches with the hook VerifShiftDeadlines.                       *)
+
+(* One Handle step, any application, any state (caches with pairwise distinct keys), any
+   message, any time: the timed endpoint does what the endpoint of Model.v does that holds
+   exactly the elements valid now ([view]) - same response, same deliveries, same error count,
+   and the view of the resulting endpoint is the resulting endpoint of Model.v - given what
+   getSentRequest found ([handle_s] is [handle] with that as a parameter; the two coincide
+   when the sending element of the token is valid or absent: C04_timed_step_view). *)
+Theorem C04_timed_step : forall app now te r, twf te ->
+  let '(te', w, d, n) := thandle app now te r in
+  handle_s app (view now te) r (tget_sent_request te (mtok r)) = (view now te', w, d, n) /\
+  sim_res now te te' (view now te').
+Proof. exact thandle_sim. Qed.
+Print Assumptions C04_timed_step.
+Theorem C04_timed_step_view : forall app now te r, twf te ->
+  (forall dl m, craw (tsnd te) (mtok r) = Some (dl, m) -> expired now dl = false) ->
+  let '(te', w, d, n) := thandle app now te r in
+  handle app (view now te) r = (view now te', w, d, n) /\ sim_res now te te' (view now te').
+Proof. exact thandle_view. Qed.
+Print Assumptions C04_timed_step_view.
+
+(* An expired reassembly element is INVISIBLE to Handle: in every state, at every time, for
+   every message (also one with the token of that element) the step on the state with an
+   element of receivingMessagesCache whose deadline has passed equals the step on the state
+   without it - same response, same deliveries, same error count, same valid elements
+   afterwards.  A token reused after the deadline behaves as a fresh one.  (This is the
+   statement the seeded regression "Cache.Load no longer hides expired elements" falsifies.) *)
+Theorem C04_expired_reassembly_invisible : forall app now te r k dl cm,
+  twf te -> craw (trcv te) k = Some (dl, cm) -> expired now dl = true ->
+  let '(te1, w1, d1, n1) := thandle app now te r in
+  let '(te2, w2, d2, n2) := thandle app now (with_trcv te (cdel (trcv te) k)) r in
+  w1 = w2 /\ d1 = d2 /\ n1 = n2 /\ view now te1 = view now te2.
+Proof. exact expired_reassembly_invisible. Qed.
+Print Assumptions C04_expired_reassembly_invisible.
+
+(* The same for an expired element of sendingMessagesCache, with the one exception the code
+   has: getSentRequest (sync.Map.LoadWithFunc) does not look at the deadline, so the element of
+   the token of the message itself still pairs a Block2 response with its request.  For every
+   other key, and whenever getSentRequest finds the same with and without it, the element is
+   invisible; the exception is real (C04_expired_sending_exception: with the expired element
+   the block is taken and the next one requested, without it the block is refused with 4.08). *)
+Theorem C04_expired_sending_invisible : forall app now te r k dl m,
+  twf te -> craw (tsnd te) k = Some (dl, m) -> expired now dl = true ->
+  (k = mtok r -> tget_sent_request (with_tsnd te (cdel (tsnd te) k)) k = tget_sent_request te k) ->
+  let '(te1, w1, d1, n1) := thandle app now te r in
+  let '(te2, w2, d2, n2) := thandle app now (with_tsnd te (cdel (tsnd te) k)) r in
+  w1 = w2 /\ d1 = d2 /\ n1 = n2 /\ view now te1 = view now te2.
+Proof. exact expired_sending_invisible. Qed.
+Print Assumptions C04_expired_sending_invisible.
+Theorem C04_expired_sending_exception :
+  twf xs_ep /\ craw (tsnd xs_ep) 7 = Some (0, xs_req) /\ expired 1 0 = true /\
+  (let '(_, w, _, n) := thandle app_a 1 xs_ep xs_block in
+   n = 0 /\ exists m, w = Some m /\ mcode m = GET /\ mb2 m = Some {| bszx := 0; bnum := 1; bmore := true |}) /\
+  (let '(_, w, _, n) := thandle app_a 1 (with_tsnd xs_ep (cdel (tsnd xs_ep) 7)) xs_block in
+   n = 1 /\ exists m, w = Some m /\ mcode m = Incomplete).
+Proof. exact expired_sending_visible_to_getSentRequest. Qed.
+Print Assumptions C04_expired_sending_exception.
+
+(* At rest (a script in which no time passes) the timed two-party system IS the system of
+   Model.v, event by event and observation by observation (wire messages, deliveries, error
+   callbacks, returns, table sizes), for EVERY configuration and script: all theorems above
+   about [run] / [model_obs] are theorems about the system the correspondence run compares
+   the implementation with. *)
+Theorem C04_timed_conservative : forall c es, trun c (tinit c) (map Ev es) = run c (init c) es.
+Proof. exact timed_conservative. Qed.
+Print Assumptions C04_timed_conservative.
+(* ... e.g. the whole property (Spec.c04_ok) on the timed trace of every script at rest *)
+Theorem C04_timed_rest_ok : forall c, cfg_wf c -> forall es, Forall (bump_ok c) es ->
+  c04_ok c (untimed (map Ev es)) (model_obs_t c (map Ev es)) = true.
+Proof.
+  intros c Hwf es Hb.
+  assert (Hu : untimed (map Ev es) = es) by (induction es as [|e es IH]; [reflexivity|cbn [map untimed]; f_equal; apply IH; inversion Hb; assumption]).
+  unfold model_obs_t. rewrite Hu, timed_conservative. apply (exchange_c04_ok c Hwf es Hb).
+Qed.
+Print Assumptions C04_timed_rest_ok.
+
+(* Safety over ALL timed scripts (the exchange-level theorem with ageing): every well-formed
+   configuration, every script of Start / Deliver / Dup / Drop / Replay / Bump (of resources
+   with ETag) / Timeout / Expire AND Age d / Sweep side at any point and in any amount - time
+   passing while exchanges are under way, deadlines passing before or after the Do gave up,
+   sweeps or no sweeps, tokens used again before or after the deadline: every message handed to
+   B's application carries exactly the body of the exchange of its token, every message handed
+   to A's application exactly one version of the resource of its exchange (or is body-less). *)
+Theorem C04_timed_exchange_safety : forall c, cfg_wf c -> forall es, Forall (tbump_ok c) es ->
+  Forall (mob_ok c (bumps (untimed es))) (trun c (tinit c) es).
+Proof. exact timed_exchange_safety. Qed.
+Print Assumptions C04_timed_exchange_safety.
+Theorem C04_timed_exchange_safety_spec : forall c, cfg_wf c -> forall es, Forall (tbump_ok c) es ->
+  Forall (fun o => Forall (fun d => delivery_class c (untimed es) (o_side o) d = 0%N) (o_deliv o)) (model_obs_t c es).
+Proof. exact timed_exchange_safety_spec. Qed.
+Print Assumptions C04_timed_exchange_safety_spec.
+
+(* ... exactly once, and the whole property as specified (Spec.c04_ok: exact body, exactly once,
+   options preserved, known token, a Do that returns ok got its response, no panic / hang mark),
+   on the timed trace of EVERY timed script: the potential argument counts the reassembly
+   buffers that are valid now; the passing of time and sweeps only lower it. *)
+Theorem C04_timed_exchange_once : forall c, cfg_wf c -> forall es, Forall (tbump_ok c) es ->
+  forall side t, handed (model_obs_t c es) side t <= arrivals (model_obs_t c es) side t.
+Proof. exact timed_exchange_once_counts. Qed.
+Print Assumptions C04_timed_exchange_once.
+Theorem C04_timed_exchange_ok : forall c, cfg_wf c -> forall es, Forall (tbump_ok c) es ->
+  c04_ok c (untimed es) (model_obs_t c es) = true.
+Proof. exact timed_exchange_c04_ok. Qed.
+Print Assumptions C04_timed_exchange_ok.
+
+(* Non-vacuity with time: the history of the seeded regression (a download that dies after two
+   blocks, 3700 units of time - beyond the deadline - pass without a sweep, the resource (no
+   ETag) gets new content, a new Do with the same token completes): exactly the 78 bytes of the
+   new content are handed over, once, while the cache still held the element of the dead
+   exchange when the new one started. *)
+Example C04_reuse_after_deadline :
+  c04_class reuse_cfg (untimed reuse_es) (model_obs_t reuse_cfg reuse_es) = 0%N /\
+  flat_map (fun o => map (fun d => (o_side o, plen d, psum d)) (filter (fun d => 0 <? plen d) (o_deliv o)))
+           (model_obs_t reuse_cfg reuse_es) = [(0, 78, csum (res_body (R 11 75 false 42) 1))] /\
+  nth 1 (o_sizes (nth 9 (model_obs_t reuse_cfg reuse_es) (Ob 0 None None [] 0 [] [] 0))) 0 = 1.
+Proof. exact reuse_after_deadline. Qed.
